@@ -14,7 +14,7 @@ BUILTINS = {'len', 'int', 'str', 'bool', 'min', 'max', 'sum', 'abs', 'list', 'tu
 SPEC_BUILTINS = {'forall', 'exists', 'implies', 'iff', 'old', 'ite', 'seq_get', 'subset', 'setof', 'distinct', 'is_prefix',
                  'is_none', 'some', 'emptyset', 'set_add', 'set_remove', 'seq_take', 'seq_drop', 'index_of', 'card',
                  'str_len', 'str_at', 'str_contains', 'str_indexof', 'str_prefixof', 'str_suffixof', 'str_sub',
-                 'str_replace_first', 'domain', 'map_get', 'unchanged', 'map_same_except', 'heap_same', 'heap_same_except', 'map_same', 'okey', 'opos', 'oval', 'osame', 'oprefix', 'fun_set', 'has_flag', 'in_re', 'int_to_str', 'str_to_int', 'str_lt', 'str_le'}
+                 'str_replace_first', 'domain', 'map_get', 'unchanged', 'map_same_except', 'heap_same', 'heap_same_except', 'map_same', 'okey', 'opos', 'oval', 'osame', 'oprefix', 'fun_set', 'has_flag', 'in_re_pat', 'in_re', 'int_to_str', 'str_to_int', 'str_lt', 'str_le'}
 
 def _len_term(ex, v):
     ty = v.ty
@@ -53,6 +53,14 @@ def call_builtin(ex, name, args, kwargs, node):
             if not ex.spec and ex.branch(z3.Not(ok), exceptional=True): ex.raise_exc('ValueError')
             return vint(z3.StrToInt(a.t))
         raise Unsupported('int(%r)' % a.ty)
+    if name == 'ord':
+        a = ex.val(args[0]); c = ex.const_py(a)
+        if c is not None and len(c[0]) == 1: return vint(ord(c[0]))
+        return vint(z3.StrToCode(a.t))
+    if name == 'chr':
+        a = ex.val(args[0]); c = ex.const_py(a)
+        if c is not None: return vstr(chr(c[0]))
+        return V(TStr, z3.StrFromCode(coerce(a, TInt).t))
     if name == 'bool': return vbool(truth(ex.val(args[0])))
     if name == 'str':
         if not args: return vstr('')
@@ -331,6 +339,8 @@ def _seq_of_set(ex, s):
 def call_method_builtin(ex, bm, args, kwargs, node):
     recv, name = bm.recv, bm.name
     from . import strlib
+    if isinstance(recv, strlib.RegexV) and name == 're.sub':
+        return ex.vf.regex_sub(ex, recv, args, kwargs)
     if isinstance(recv, strlib.RegexV):
         s = ex.val(args[0])
         if isinstance(s.ty, TOpt): s = ex.co(s, s.ty.inner)
@@ -355,7 +365,7 @@ def call_method_builtin(ex, bm, args, kwargs, node):
             star = ex.val(star)
             if isinstance(star.ty, TMap) and star.ty.k is TStr:
                 for f, fty in ty.fields:
-                    kt = z3.StringVal(f)
+                    kt = zs(f)
                     vals[f] = vite(z3.Select(star.t[0], kt), ex.co(unpack(z3.Select(star.t[1], kt), star.ty.v), fty), vals[f])
             elif not (isinstance(star.ty, TTuple) and not star.t): raise Unsupported('_replace(**%r)' % star.ty)
         for k, v in kwargs.items(): vals[k] = coerce(ex.val(v), ty.fty(k))
@@ -394,6 +404,9 @@ def _str_method(ex, s, name, args, kwargs):
         return vbool(z3.PrefixOf(args[0].t, t))
     if name == 'endswith':
         if isinstance(args[0].ty, TTuple): return vbool(z3.Or(*[z3.SuffixOf(x.t, t) for x in args[0].t]))
+        a0 = z3.simplify(args[0].t)
+        if z3.is_string_value(a0) and not z3.is_string_value(z3.simplify(t)):
+            return vbool(z3.InRe(t, z3.Concat(z3.Star(z3.AllChar(z3.ReSort(z3.StringSort()))), z3.Re(a0))))
         return vbool(z3.SuffixOf(args[0].t, t))
     if name == 'find': return vint(z3.IndexOf(t, args[0].t, coerce(args[1], TInt).t if len(args) > 1 else z3.IntVal(0)))
     if name == 'index':
@@ -628,10 +641,14 @@ def call_spec(ex, name, args, kwargs, node):
     if name == 'str_len': return vint(z3.Length(a[0].t))
     if name == 'str_at': return V(TStr, z3.SubString(a[0].t, coerce(a[1], TInt).t, 1))
     if name == 'str_sub': return V(TStr, z3.SubString(a[0].t, coerce(a[1], TInt).t, coerce(a[2], TInt).t))
-    if name == 'str_contains': return vbool(z3.Contains(a[0].t, a[1].t))
+    if name == 'str_contains': return vbool(ex.contains(a[0], a[1]))
     if name == 'str_indexof': return vint(z3.IndexOf(a[0].t, a[1].t, coerce(a[2], TInt).t if len(a) > 2 else z3.IntVal(0)))
     if name == 'str_prefixof': return vbool(z3.PrefixOf(a[0].t, a[1].t))
-    if name == 'str_suffixof': return vbool(z3.SuffixOf(a[0].t, a[1].t))
+    if name == 'str_suffixof':
+        a0 = z3.simplify(a[0].t)
+        if z3.is_string_value(a0) and not z3.is_string_value(z3.simplify(a[1].t)):
+            return vbool(z3.InRe(a[1].t, z3.Concat(z3.Star(z3.AllChar(z3.ReSort(z3.StringSort()))), z3.Re(a0))))
+        return vbool(z3.SuffixOf(a[0].t, a[1].t))
     if name == 'int_to_str': return ex.int_to_str(coerce(a[0], TInt))
     if name == 'str_to_int': return vint(z3.StrToInt(a[0].t))
     if name == 'domain':
@@ -640,6 +657,13 @@ def call_spec(ex, name, args, kwargs, node):
         m, k = a; return unpack(z3.Select(m.t[1], pack(coerce(k, m.ty.k))), m.ty.v)
     if name == 'seq_get':
         return seq_get(a[0], coerce(a[1], TInt).t)
+    if name == 'in_re_pat':
+        # in_re_pat(s, "<python regex>"): s (entirely) matches the pattern -- ASCII categories, translated from CPython's parse tree
+        from . import strlib
+        pat = ex.const_py(a[1])
+        if pat is None: raise Unsupported('in_re_pat needs a constant pattern')
+        notes = set(); tree = strlib._sp.parse(pat[0], 0)
+        return vbool(z3.InRe(a[0].t, strlib.to_z3re(list(tree), notes)))
     if name == 'has_flag': return vbool((a[0].t & a[1].t) == a[1].t)
     if name == 'fun_set':
         f, k, v = a
